@@ -20,7 +20,7 @@ BOUNDS = {
                  "outside": "deeper trees, n>7, arity>4, rounding size, overflow/underflow"},
 }
 ASSUMPTIONS = ["the reference derivative is a textbook differentiator over the denotation term (validated against sympy and finite differences at self-test)"]
-OPTS = {"quick": {"timeout_ms": 10000}, "thorough": {"timeout_ms": 30000}}
+OPTS = {"quick": {"timeout_ms": 10000, "fp_timeout_ms": 40000}, "thorough": {"timeout_ms": 30000, "fp_timeout_ms": 180000}}
 
 
 def deriv_jobs(tier, seed, routes_main, add, one_var_routes):
@@ -96,5 +96,55 @@ def derivative_vcs(spec, ctx, outs, name="value==true-partial"):
     return res
 
 
+POLY = ("var", "const", "Add", "Minus", "Negation", "Multiply", "NthPower", "share")
+
+
+def is_polynomial_tree(d):
+    if d[0] not in POLY:
+        return False
+    if d[0] in ("var", "const"):
+        return not isinstance(d[1], list) or d[0] == "var"
+    kids = d[2:3] if d[0] == "share" else (d[1:2] if d[0] == "NthPower" else d[1:])
+    return all(is_polynomial_tree(c) for c in kids)
+
+
+def exactness_vcs(spec, ctx, outs):
+    """polynomial fragment: the forward-mode trace must stay within + - * (exact on small-integer / dyadic inputs: every intermediate is
+    then an integer multiple of a fixed power of two below 2^53); a trace that leaves the fragment is compared with the reference by QF_FP"""
+    from symreal import fpexact as fx
+    from harness.run import VC
+    from props import c01
+    if not is_polynomial_tree(spec["d"]) or spec.get("twin") or spec.get("pre") or spec.get("reuse_seq"):
+        return []
+    res = []
+    n = len(spec["routes"])
+    var = spec["var"]
+    x = ctx.zenv.get(var)
+    if x is None:
+        return []
+    ref = orc.ddx(ctx.ref, x)
+    for k in range(n):
+        idx = len(outs) - n + k
+        o = outs[idx]
+        if o["kind"] != "value":
+            continue
+        t = common.val_term(o)
+        if t is None:
+            continue
+        if fx.is_polynomial_trace(t):
+            res.append(VC("polynomial-fragment:trace-uses-only-exact-operations", None, None, {"failed": False}))
+        else:
+            saved = ctx.ref
+            ctx.ref = ref
+            try:
+                v = c01.exactness_vc(spec, ctx, o, idx)
+            finally:
+                ctx.ref = saved
+            if v is not None:
+                v.name = "polynomial-fragment:" + v.name
+                res.append(v)
+    return res
+
+
 def vcs(spec, ctx, outs):
-    return derivative_vcs(spec, ctx, outs)
+    return derivative_vcs(spec, ctx, outs) + exactness_vcs(spec, ctx, outs)
